@@ -175,7 +175,17 @@ class Builder:
         return self.vector(r[1], r[2])
 
     def _arr(self, r):
-        return np.array(r[1], dtype=float)
+        a = np.array(r[1], dtype=float)
+        layout = r[2] if len(r) > 2 else "C"
+        if layout == "strided":
+            big = np.zeros(a.size * 2)
+            big[::2] = a
+            return big[::2]
+        if layout == "reversed-view":
+            return np.array(a[::-1])[::-1]
+        if layout == "int":
+            return np.array(r[1])              # integer dtype when the data are integers
+        return a
 
     def _lst(self, r):
         return list(r[1])
@@ -222,7 +232,17 @@ class Builder:
         return self.matrix(r[1], r[2], r[3], r[4])
 
     def _arr2(self, r):
-        return np.array(r[1], dtype=float)
+        a = np.array(r[1], dtype=float)
+        layout = r[2] if len(r) > 2 else "C"
+        if layout == "F":
+            return np.asfortranarray(a)
+        if layout == "T":                      # transposed view of the transposed data: same values, F-ordered view
+            return np.array(a.T, order="C").T
+        if layout == "strided":                # non-contiguous view into a larger buffer
+            big = np.zeros((a.shape[0] * 2, a.shape[1] * 2))
+            big[::2, ::2] = a
+            return big[::2, ::2]
+        return a
 
     def _lst2(self, r):
         return [list(row) for row in r[1]]
